@@ -2,6 +2,7 @@ import BlockModes.Thm.C02
 import BlockModes.Thm.C03
 import BlockModes.Thm.C08
 import BlockModes.Thm.C05
+import BlockModes.Lemmas.Padding
 /-
   C01 — decryption inverts encryption, and unpadded operations preserve length.
 
@@ -126,6 +127,43 @@ theorem stream_roundtrip {σ : Type} {K : Core σ} {M : Nat} {ks : Nat → Bytes
   refine ⟨?_, hl⟩
   rw [e2, hl, ← hq, e1]
   exact xorB_cancel_right data _ (by simp)
+
+/-! ### padded (PKCS#7) -/
+
+/-- the generic statement is `Glue.padded_roundtrip` (any block mode whose decrypt fold inverts its encrypt fold);
+    `Spec.pkcs7Unpad_pad` is the padding scheme itself.  Instances for the modes used with padding: -/
+theorem cbc_padded_roundtrip (C : Cipher) (hC : C.Valid) (hbs : C.bs < 256) (w₁ w₂ : Nat) (iv : Bytes)
+    (hiv : iv.length = C.bs) (m : Bytes) :
+    paddedDec C.bs (Cbc.decBlocks C w₂) (Cbc.init C iv)
+      (paddedEnc C.bs (Cbc.encBlocks C w₁) (Cbc.encBlock C) (Cbc.init C iv) m) = some m := by
+  apply Glue.padded_roundtrip C.bs hC.bs_pos hbs (Cbc.encBlock C) (Cbc.decBlock C)
+  · intro s l; rw [C02.cbc_encBlocks_eq, C02.cbc_enc_fold]
+  · intro s l; rw [C02.cbc_decBlocks_eq, C02.cbc_dec_fold]
+  · intro l hl; rw [C02.cbc_enc_fold, C02.cbc_dec_fold]; exact (cbcDec_cbcEnc C hC l iv hiv hl).1
+  · intro l hl; rw [C02.cbc_enc_fold]; exact (cbcEnc_allLen C hC l iv hiv hl).1
+
+/-- the padded ciphertext is a whole number of blocks, one more than `⌊|m| / bs⌋`. -/
+theorem padded_length {σ : Type} (mbs : Nat) (h0 : 0 < mbs) (step : σ → Bytes → Bytes × σ)
+    (blocksFn : σ → List Bytes → List Bytes × σ) (hf : ∀ s l, blocksFn s l = foldBlocks step s l)
+    (s0 : σ) (hlen : ∀ l, AllLen mbs l → AllLen mbs (foldBlocks step s0 l).1) (m : Bytes) :
+    (paddedEnc mbs blocksFn step s0 m).length = (m.length / mbs + 1) * mbs := by
+  have hB := chunks_allLen mbs h0 m
+  have hTl := chunksTail_lt mbs h0 m
+  have hall : AllLen mbs (chunks mbs m ++ [chunksTail mbs m ++
+      List.replicate (mbs - (chunksTail mbs m).length) (UInt8.ofNat (mbs - (chunksTail mbs m).length))]) := by
+    intro b hb
+    simp only [List.mem_append, List.mem_singleton] at hb
+    rcases hb with hb | rfl
+    · exact hB b hb
+    · simp; omega
+  have hct : paddedEnc mbs blocksFn step s0 m = (foldBlocks step s0 (chunks mbs m ++ [chunksTail mbs m ++
+      List.replicate (mbs - (chunksTail mbs m).length) (UInt8.ofNat (mbs - (chunksTail mbs m).length))])).1.flatten := by
+    unfold paddedEnc
+    simp only [hf, foldBlocks_append, foldBlocks, List.flatten_append, List.flatten_cons, List.flatten_nil,
+      List.append_nil]
+  rw [hct, flatten_length_of_allLen mbs _ (hlen _ hall), foldBlocks_length, List.length_append,
+    chunks_length mbs h0]
+  simp
 
 /-! ### ciphertext stealing -/
 
